@@ -532,6 +532,84 @@ class _IfExpAssignAsStatement(ast.NodeTransformer):
         return node
 
 
+class _RenameLocals(ast.NodeTransformer):
+    """every local variable v of every function -> v__r (parameters, globals, names bound by imports / handlers /
+    comprehensions and names shared with a nested scope's own bindings are left alone)"""
+    def __init__(self):
+        self.count = 0
+
+    def visit_FunctionDef(self, node):
+        # inner functions first (their own locals), then this one
+        self.generic_visit(node)
+        own_stmts = []
+
+        def collect(n, top):
+            for ch in ast.iter_child_nodes(n):
+                if isinstance(ch, (ast.FunctionDef, ast.AsyncFunctionDef, ast.Lambda, ast.ClassDef)):
+                    continue
+                own_stmts.append(ch)
+                collect(ch, False)
+
+        collect(node, True)
+        params = {a.arg for a in node.args.args + node.args.kwonlyargs + node.args.posonlyargs} | ({node.args.vararg.arg} if node.args.vararg else set()) | ({node.args.kwarg.arg} if node.args.kwarg else set())
+        assigned = {x.id for x in own_stmts if isinstance(x, ast.Name) and isinstance(x.ctx, ast.Store)}
+        blocked = set(params)
+        for x in ast.walk(node):
+            if isinstance(x, (ast.Global, ast.Nonlocal)):
+                blocked |= set(x.names)
+            elif isinstance(x, ast.alias):
+                blocked.add((x.asname or x.name).split(".")[0])
+            elif isinstance(x, ast.ExceptHandler) and x.name:
+                blocked.add(x.name)
+            elif isinstance(x, ast.comprehension):
+                blocked |= {t.id for t in ast.walk(x.target) if isinstance(t, ast.Name)}
+            elif isinstance(x, (ast.FunctionDef, ast.AsyncFunctionDef, ast.Lambda)) and x is not node:
+                a = x.args
+                blocked |= {p.arg for p in a.args + a.kwonlyargs + a.posonlyargs}
+                if isinstance(x, ast.FunctionDef):
+                    blocked.add(x.name)
+                    blocked |= {y.id for y in ast.walk(x) if isinstance(y, ast.Name) and isinstance(y.ctx, ast.Store)}
+            elif isinstance(x, ast.NamedExpr) and isinstance(x.target, ast.Name):
+                blocked.add(x.target.id)
+        existing = {x.id for x in ast.walk(node) if isinstance(x, ast.Name)}
+        ren = {v: v + "__r" for v in assigned if v not in blocked and not v.startswith("__") and (v + "__r") not in existing and v != "_"}
+        if ren:
+            for x in ast.walk(node):
+                if isinstance(x, ast.Name) and x.id in ren:
+                    x.id = ren[x.id]
+                    self.count += 1
+        return node
+
+
+class _ReturnViaTemp(ast.NodeTransformer):
+    """return <expr>  ->  _ret = <expr>; return _ret   (expressions that are not already a plain name / constant)"""
+    def __init__(self):
+        self.count = 0
+
+    def visit_Return(self, node):
+        if node.value is None or isinstance(node.value, (ast.Name, ast.Constant)):
+            return node
+        self.count += 1
+        return [ast.copy_location(ast.Assign(targets=[ast.Name(id="_ret", ctx=ast.Store())], value=node.value), node),
+                ast.copy_location(ast.Return(value=ast.Name(id="_ret", ctx=ast.Load())), node)]
+
+    def visit_Lambda(self, node):
+        return node
+
+
+class _UnpackViaTemp(ast.NodeTransformer):
+    """a, b = f(...)  ->  _tup = f(...); a, b = _tup"""
+    def __init__(self):
+        self.count = 0
+
+    def visit_Assign(self, node):
+        if len(node.targets) == 1 and isinstance(node.targets[0], (ast.Tuple, ast.List)) and isinstance(node.value, ast.Call):
+            self.count += 1
+            return [ast.copy_location(ast.Assign(targets=[ast.Name(id="_tup", ctx=ast.Store())], value=node.value), node),
+                    ast.copy_location(ast.Assign(targets=node.targets, value=ast.Name(id="_tup", ctx=ast.Load())), node)]
+        return node
+
+
 def global_benign_variants() -> List[Variant]:
     return [
         Variant("global-benign-none-tests-double-negation", "benign", _rewrite_all(_NoneDoubleNegation)),
@@ -542,4 +620,7 @@ def global_benign_variants() -> List[Variant]:
         Variant("global-benign-len-tests", "benign", _rewrite_all(_LenTests)),
         Variant("global-benign-axis-positional", "benign", _rewrite_all(_AxisPositional)),
         Variant("global-benign-ifexp-assign-as-statement", "benign", _rewrite_all(_IfExpAssignAsStatement)),
+        Variant("global-benign-locals-renamed", "benign", _rewrite_all(_RenameLocals)),
+        Variant("global-benign-return-via-temp", "benign", _rewrite_all(_ReturnViaTemp)),
+        Variant("global-benign-unpack-via-temp", "benign", _rewrite_all(_UnpackViaTemp)),
     ]
